@@ -280,6 +280,35 @@ func scenarioC03(r *Run) {
 		if !bytes.Equal(received, a.B) {
 			r.Probe("corrupt-still-verifies(benign)")
 		}
+		if t.Bool(1, 3, "c03.tamper-in-place") {
+			// the accepted message object is damaged in memory afterwards (a
+			// signature or payload octet changed in place: same slices, same
+			// lengths) and shown to the SAME verifier objects again: an
+			// earlier acceptance decides nothing about the bytes held now
+			var target []byte
+			what := "signature"
+			switch {
+			case rc.MS != nil && len(rc.MS.Signatures) > 0:
+				target = rc.MS.Signatures[t.Choose(len(rc.MS.Signatures), "c03.tip.sig")].Signature
+			case rc.M1 != nil:
+				target = rc.M1.Signature
+			}
+			if pl := rc.Payload(); len(pl) > 0 && t.Bool(1, 3, "c03.tip.payload") {
+				target, what = pl, "payload"
+			}
+			if len(target) > 0 {
+				i := t.Choose(len(target), "c03.tip.pos")
+				target[i] ^= 1 << uint(t.Choose(8, "c03.tip.bit"))
+				r.Fired("app.tampers-accepted-message-in-place/" + what)
+				again := r.VerifyLib(rc, external, vs...)
+				r.Check()
+				// a flipped signature bit can, for ECDSA, never give another valid signature of the same content under the same key except by a collision of negligible probability; a payload bit changes the digest
+				if again == nil {
+					r.Fail("accepts-invalid-signature/"+kind.String()+"/after-in-place-change-of-accepted-message", "Verify returned nil for a message object whose %s was changed in place (octet %d) after the same verifier objects had accepted it\nwire as received: %s", what, i, hexShort(received))
+					return
+				}
+			}
+		}
 	} else {
 		r.Outcome("refused:" + whyClass(why))
 	}
